@@ -373,3 +373,108 @@ def ms_end_reverse(self, g):
 
 def ms_stop(self, g):
     assert g.done, "C02,C09:stream_ends_only_after_final_action"
+
+
+# ---------------------------------------------------------------------------- TwoLevel
+# DISK holds the periodic restart checkpoints {x : x % period == 0, 0 <= x < g.pend}; the one at
+# x covers [x, min(x + period, N)).  They are never removed (unlimited adjoint passes).
+# The binomial storage holds a LIFO stack (g.cs, g.cov) of extra restart checkpoints strictly
+# inside the current period block.
+def tl_init(self, g):
+    g.N = nondet_int()
+    assume(g.N >= 1)
+    g.known = False
+    g.pend = 0
+    g.cs = []
+    g.cov = []
+    init_common(self, g)
+
+
+def tl_forward(self, g, n0, n1, write_ics, write_adj_deps, storage):
+    forward_common(self, g, n0, n1, write_ics, write_adj_deps, storage)
+    assert storage != StorageType.NONE, "C18:forward_storage_used"
+    if g.phase == 0:
+        # before finalisation: exactly Forward(k*period, (k+1)*period, restart checkpoint to DISK)
+        assert storage == StorageType.DISK and write_ics and not write_adj_deps, \
+            "C13:forward_phase_is_periodic_disk_checkpointing"
+        assert n0 == g.pend and n1 == n0 + self._period, "C13:forward_phase_is_periodic_disk_checkpointing"
+        online_advance(self, g, n0, n1)
+        g.pend = n1
+        g.wlo = 0
+        g.whi = 0
+        # one disk checkpoint per started period (C03)
+        assert g.pend - self._period < g.fwd and g.fwd <= g.pend, "C03:one_disk_checkpoint_per_started_period"
+    else:
+        g.fwd = n1
+        if storage == StorageType.WORK:
+            work_forward(self, g, n0, n1, write_ics, write_adj_deps)
+        else:
+            k = len(g.cs)
+            assert storage == self._binomial_storage, "C13:extra_checkpoints_only_in_binomial_storage"
+            assert write_ics and not write_adj_deps, "C03:restart_checkpoints_only"
+            assert k < self._binomial_snapshots, "C03:binomial_budget"
+            assert forall(0, k, lambda i: g.cs[i] != n0), "C01:no_overwrite"
+            assert n0 % self._period != 0, "C01:no_overwrite_of_periodic_checkpoint"
+            g.cs.append(n0)
+            g.cov.append(n1)
+            g.wlo = 0
+            g.whi = 0
+    counters(self, g)
+    assert not self.is_exhausted, "C09:is_exhausted_false_while_actions_remain"
+
+
+def tl_end_forward(self, g):
+    end_forward_common(self, g)
+    counters(self, g)
+    assert not self.is_exhausted, "C09:is_exhausted_false_while_actions_remain"
+
+
+def tl_reverse(self, g, n1, n0, clear_adj_deps):
+    reverse_common(self, g, n1, n0, clear_adj_deps)
+    assert n1 == n0 + 1, "C12:one_step_of_dependencies"
+    assert g.wlo >= g.whi, "C12:work_holds_no_dependencies_after_reverse"
+    counters(self, g)
+    assert not self.is_exhausted, "C09:is_exhausted_false_while_actions_remain"
+
+
+def tl_load(self, g, n, from_storage, to_storage, is_move):
+    load_common(self, g, n, from_storage, to_storage)
+    assert to_storage == StorageType.WORK, "C18:loads_go_to_work"
+    k = len(g.cs)
+    if k >= 1 and g.cs[k - 1] == n:
+        # the top of the binomial stack
+        assert from_storage == self._binomial_storage, "C01:checkpoint_present_on_top_of_stack"
+        assert g.cov[k - 1] >= g.N - g.adj, "C01:restart_checkpoint_covers_steps_to_recompute"
+        if is_move:
+            g.cs.pop()
+            g.cov.pop()
+    else:
+        # a periodic disk checkpoint
+        assert from_storage == StorageType.DISK and n % self._period == 0 and 0 <= n and n < g.pend, \
+            "C01:checkpoint_present"
+        assert n + self._period >= g.N - g.adj, "C01:restart_checkpoint_covers_steps_to_recompute"
+        assert not is_move, "C04:periodic_checkpoints_are_kept_for_further_passes"
+    g.fwd_def = True
+    g.fwd = n
+    g.work_ics = True
+    counters(self, g)
+    assert not self.is_exhausted, "C09:is_exhausted_false_while_actions_remain"
+
+
+def tl_copy(self, g, n, from_storage, to_storage):
+    tl_load(self, g, n, from_storage, to_storage, False)
+
+
+def tl_move(self, g, n, from_storage, to_storage):
+    tl_load(self, g, n, from_storage, to_storage, True)
+
+
+def tl_end_reverse(self, g):
+    assert g.phase == 1, "C02:EndReverse_before_EndForward"
+    assert g.adj == g.N, "C02:EndReverse_when_step0_reversed"
+    g.passes = g.passes + 1
+    # unlimited passes: the periodic set is untouched and the binomial stack is empty again (C04)
+    assert len(g.cs) == 0, "C04:storage_at_EndReverse_equals_storage_at_EndForward"
+    g.adj = 0
+    assert self._r == 0, "C08:r_reset_at_EndReverse_iff_more_passes"
+    assert not self.is_exhausted, "C09:is_exhausted_false_while_actions_remain"
